@@ -177,7 +177,8 @@ def key_rule(chk, rid, runs):
                 s = pure_sym(src)
                 from_table = any(rec.state.entails_eq(src - Lin.sym(a)) == "yes" for a in it.label_atoms) \
                     if is_lin(src) else False
-                if s and not s.startswith("self.") and not from_table and storage_values(rec.state, src) is None:
+                sv = storage_values(rec.state, src)
+                if s and not s.startswith("self.") and not from_table and (sv is None or len(sv) > 1):
                     multi = True
         if not multi:
             continue
